@@ -283,7 +283,7 @@ func genNocopyCase(t *rapid.T) NocopyCase {
 		sc.I32 = rapid.Int32().Draw(t, "i32")
 		sc.ExtraNil = rapid.IntRange(0, 3).Draw(t, "extraNil") == 0
 		if !sc.ExtraNil {
-			for i := rapid.IntRange(0, 3).Draw(t, "nextra"); i > 0; i-- {
+			for i := rapid.SampledFrom([]int{0, 1, 1, 2, 3, 8, 17}).Draw(t, "nextra"); i > 0; i-- {
 				sc.Extra = append(sc.Extra, KVP{K: PStr{L: genNocopyLen(t, "klen"), S: byte(i)}, V: PStr{L: genNocopyLen(t, "vlen"), S: byte(i + 100)}})
 			}
 		}
